@@ -74,7 +74,27 @@ Inductive qcase :=
 (* eth_call of a contract whose first instruction is GAS: obs = the value it returned (None: the call failed).
    Intrinsic gas of a call without data is 21000 and GAS itself costs 2; the rest of the reporter
    (PUSH1 MSTORE PUSH1 PUSH1 RETURN, one word of memory) needs 15 more. *)
-| QGas (gas_cap : N) (args_gas : option N) (obs : option N).
+| QGas (gas_cap : N) (args_gas : option N) (obs : option N)
+(* one block with several transactions of the same sender, some failing in the EVM or refused by the state
+   transition: m = the senders' nonces before the block, txs = its nonce skeleton (what the block did with each
+   transaction), obs_tx[i] = Query/TraceTx of transaction i with transactions 0..i-1 as predecessors produced a trace,
+   obs_block[i] = Query/TraceBlock produced a trace for transaction i.  The model's TraceTx / TraceBlock
+   (Model/Query.v trace_tx / trace_block over skel_apply) must say the same for every transaction that got through
+   the ante handler. *)
+| QTrace (m : nmap) (txs : list btx) (obs_tx obs_block : list bool).
+
+Definition is_some {A} (o : option A) : bool := match o with Some _ => true | None => false end.
+
+Definition trace_case_ok (m : nmap) (txs : list btx) (obs_tx obs_block : list bool) (i : nat) : bool :=
+  match nth_error txs i, nth_error obs_tx i, nth_error obs_block i with
+  | Some t, Some ot, Some ob =>
+      match b_class t with
+      | BAnte => true
+      | _ => Bool.eqb (is_some (trace_tx skel_apply m (firstn i txs) t)) ot &&
+             Bool.eqb (match nth_error (trace_block skel_apply m txs) i with Some o => is_some o | None => false end) ob
+      end
+  | _, _, _ => false
+  end.
 
 Definition q_ok (c : qcase) : bool :=
   match c with
@@ -89,6 +109,9 @@ Definition q_ok (c : qcase) : bool :=
       | Some o => call_gas gas_cap args_gas =? o + 21002
       | None => call_gas gas_cap args_gas <? 21017
       end
+  | QTrace m txs obs_tx obs_block =>
+      Nat.eqb (length obs_tx) (length txs) && Nat.eqb (length obs_block) (length txs) &&
+      forallb (trace_case_ok m txs obs_tx obs_block) (seq 0 (length txs))
   end.
 
 Definition query_mismatches (off : nat) (l : list qcase) : list nat := mism q_ok off l.
